@@ -52,6 +52,11 @@ func run(rc *kernel.RunCtx) {
 				rc.Fail("panic", "container", fmt.Sprintf("panic: %v", v))
 			}
 		}()
+		if rc.Tape.Bool(1, 400) {
+			runLargeSets(c)
+
+			return
+		}
 		switch rc.Tape.Choose(8) {
 		case 7:
 			// A map set over floats, NaN included.
@@ -477,9 +482,26 @@ func checkVisited(c *ctx, l *live, seen []int, complete bool, what string) bool 
 	return true
 }
 
+func kindOf(l *live) string { return l.obj.kind() }
+
+func (o sortedObj) str() string         { return o.s.String() }
+func (o sortedObj) rawValues() any      { return o.s.Values() }
+func (o sortedFloatObj) str() string    { return o.s.String() }
+func (o sortedFloatObj) rawValues() any { return o.s.Values() }
+
 func checkSet(c *ctx, l *live) bool {
 	rc := c.rc
 	kind := l.obj.kind()
+	if st, ok := l.obj.(interface{ str() string }); ok {
+		// Documented: String on a nil *SortedSliceSet does not panic; on any
+		// set it is the %v rendering of Values.
+		if got, want := st.str(), fmt.Sprintf("%v", st.(interface{ rawValues() any }).rawValues()); got != want {
+			rc := c.rc
+			rc.Fail("string", kindOf(l)+".String", fmt.Sprintf("String() = %q, want %q", got, want))
+
+			return false
+		}
+	}
 	if l.obj.isNil() {
 		vals := l.obj.Values()
 		calls := 0
@@ -525,6 +547,110 @@ func checkSet(c *ctx, l *live) bool {
 	l.obj.Range(func(x int) bool { seen = append(seen, x); return true })
 
 	return checkVisited(c, l, seen, true, "Range")
+}
+
+// runLargeSets is a history over sets with thousands of elements (growth,
+// mass deletion, Clear, reuse): thresholds in the storage management must not
+// show in the behaviour.  The sets are compared with the model at checkpoints
+// rather than after every step.
+func runLargeSets(c *ctx) {
+	tp, rc := c.rc.Tape, c.rc
+	rc.Stats.Probe("large-sets")
+	n := tp.Range(100, 6000)
+	ms := container.NewMapSet[int]()
+	ss := container.NewSortedSliceSet[int]()
+	model := map[int]bool{}
+	check := func(when string) bool {
+		want := modelValues(model)
+		if ms.Len() != len(want) || ss.Len() != len(want) {
+			rc.Fail("len", "container.Len", fmt.Sprintf("%s (%d values added): MapSet.Len=%d SortedSliceSet.Len=%d, model %d", when, n, ms.Len(), ss.Len(), len(want)))
+
+			return false
+		}
+		sv := ss.Values()
+		if !slices.Equal(sv, want) {
+			rc.Fail("values", "SortedSliceSet.Values", fmt.Sprintf("%s (%d values added): Values differs from the model (len %d vs %d) or is not ascending", when, n, len(sv), len(want)))
+
+			return false
+		}
+		mv := slices.Clone(ms.Values())
+		sort.Ints(mv)
+		if !slices.Equal(mv, want) {
+			rc.Fail("values", "MapSet.Values", fmt.Sprintf("%s: MapSet.Values differs from the model", when))
+
+			return false
+		}
+		for _, probe := range []int{-1, 0, n / 2, n - 1, n} {
+			if ms.Has(probe) != model[probe] || ss.Has(probe) != model[probe] {
+				rc.Fail("has", "container.Has", fmt.Sprintf("%s: Has(%d) = %v / %v, model %v", when, probe, ms.Has(probe), ss.Has(probe), model[probe]))
+
+				return false
+			}
+		}
+
+		return true
+	}
+	// Growth in a scattered order.
+	for i := 0; i < n; i++ {
+		v := (i * 7919) % n
+		ms.Add(v)
+		ss.Add(v)
+		model[v] = true
+	}
+	if !check("after growth") {
+		return
+	}
+	if tp.Bool(1, 3) {
+		// Clear while large, then reuse.
+		ms.Clear()
+		ss.Clear()
+		clear(model)
+		if !check("after Clear of the large sets") {
+			return
+		}
+		for i := 0; i < 40; i++ {
+			v := tp.Choose(n + 10)
+			ms.Add(v)
+			ss.Add(v)
+			model[v] = true
+		}
+		check("after reuse of the cleared large sets")
+		c.mix(9998, n)
+
+		return
+	}
+	// Mass deletion with checkpoints.
+	keep := tp.Choose(n/4 + 1)
+	step := max(1, (n-keep)/12)
+	for i := 0; i < n-keep; i++ {
+		ms.Delete(i)
+		ss.Delete(i)
+		delete(model, i)
+		if i%step == 0 && !check("during deletion") {
+			return
+		}
+	}
+	if !check("after deletion") {
+		return
+	}
+	if tp.Bool(1, 2) {
+		ms.Clear()
+		ss.Clear()
+		clear(model)
+		if !check("after Clear") {
+			return
+		}
+	}
+	// Reuse.
+	for i := 0; i < 40; i++ {
+		v := tp.Choose(n + 10)
+		ms.Add(v)
+		ss.Add(v)
+		model[v] = true
+	}
+	check("after reuse")
+	rc.Steps += int64(2 * n)
+	c.mix(9999, n, keep)
 }
 
 // ---- RingBuffer ----
